@@ -200,7 +200,7 @@ Definition nonneg_durations (o : op) : bool :=
   match o with
   | PlayTone _ (Some d) => qle q0 d
   | Beep _ on off _ => qle q0 on && qle q0 off
-  | Sweep _ _ d _ => qle q0 d
+  | Sweep _ _ d _ => qle q0 d && (Qfloor d <? 2 ^ 24)      (* below 2^24 ms: exactly a float *)
   | _ => true
   end.
 Definition duration_bound (tbl : list (text * score)) (o : op) : Q :=
